@@ -1,7 +1,8 @@
 (* C02 / C13 — model of Block::generate_consensus_values (block.rs) as a pure function
-   (as of /repo e1b5241: fees of every user-originated type counted, rebroadcast inputs keep
+   (as of /repo 92b2ed5: fees of every user-originated type counted, rebroadcast inputs keep
    their ledger amount, NFT payload output = payout - fee, the 5 % cap reads the parent's
-   treasury and commits to the adjusted transactions).
+   treasury and commits to the adjusted transactions, the payout product and the payout total
+   saturate).
 
    Model only; proofs are in proofs/CVProofs.v.
 
@@ -90,6 +91,11 @@ Definition inc8 (m : amode) (a : N) : res N :=
   | M64 dbg => if a + 1 <? 256 then Ok (a + 1)
                else if dbg then Panic P_COUNT_U8 else Ok 0
   end.
+
+(* u64::saturating_mul / saturating_add (fix 812712b): total in every mode — they are what the
+   code computes, not an accident of the machine word *)
+Definition smul (a b : N) : N := N.min (a * b) U64MAX.
+Definition sadd (a b : N) : N := N.min (a + b) U64MAX.
 
 (* ---------- slips and transactions ---------- *)
 Record slip := mkSlip {
@@ -280,13 +286,13 @@ Definition atr0 : atr_acc := mkAtr 0 0 0 0 0 [].
 (* one group of one transaction; [mult] = expected_atr_multiplier, [fee] = atr_fee *)
 Definition atr_group (m : amode) (orig : tx) (mult fee : N) (a : atr_acc) (g : grp) : res atr_acc :=
   let payload := match g with GSingle s => s | GTriple _ s2 _ => s2 end in
-  do payout <- mul m P_PAYOUT_MUL (s_amt payload) mult;
+  let payout := smul (s_amt payload) mult in
   do surplus <- sub m P_PAYOUT_MUL payout (s_amt payload);
   do nolan <- add m P_ATR_ACC (a_nolan a) (s_amt payload);
   if fee <? payout then
     do slips <- add m P_ATR_ACC (a_slips a) 1;
     do outamt <- sub m P_ATR_ACC payout fee;
-    do pay <- add m P_ATR_ACC (a_payout a) surplus;
+    let pay := sadd (a_payout a) surplus in
     do fees <- add m P_ATR_ACC (a_fees a) fee;
     let rb :=
       (* the input is the output as the ledger holds it (its utxo key); payout and fee show up in
